@@ -17,17 +17,27 @@
 (*              traces recorded from the real code are validated: the      *)
 (*              harness runs vek on exact rationals and logs each value as *)
 (*              its residue n * d^-1 mod P.                                *)
+(*   P = -2     (written P <- PPoly) the free commutative ring Z[x1,x2,..] *)
+(*              of VekPoly: ring elements are polynomials in canonical     *)
+(*              form; the Law_*_S models check the laws as polynomial      *)
+(*              identities on free symbols and the symbolic lane of the    *)
+(*              harness (element type Sym) is validated in it - no         *)
+(*              sampling.  Division exists only by integer constants that  *)
+(*              divide every coefficient; anything else stops TLC with an  *)
+(*              error (never a wrong verdict).  No order.                  *)
 (* Serves every algebraic property (C01-C12, C14, C19).                    *)
 (***************************************************************************)
-EXTENDS VekNum
+EXTENDS VekNum, VekPoly, TLC
 CONSTANT P
 PRational == 0 - 1     \* cfg files cannot write a negative literal: CONSTANT P <- PRational
+PPoly == 0 - 2         \* CONSTANT P <- PPoly
+OrderedRing == P = 0 \/ P = PRational
 
-FI(x) == IF P = 0 THEN x ELSE IF P < 0 THEN <<x, 1>> ELSE x % P              \* integer -> ring element
-FAdd(a, b) == IF P = 0 THEN a + b ELSE IF P < 0 THEN QAdd(a, b) ELSE (a + b) % P
-FSub(a, b) == IF P = 0 THEN a - b ELSE IF P < 0 THEN QSub(a, b) ELSE (a - b) % P
-FNeg(a) == IF P = 0 THEN -a ELSE IF P < 0 THEN QNeg(a) ELSE (P - a) % P
-FMul(a, b) == IF P = 0 THEN a * b ELSE IF P < 0 THEN QMul(a, b) ELSE (a * b) % P
+FI(x) == IF P = 0 THEN x ELSE IF P = PRational THEN <<x, 1>> ELSE IF P = PPoly THEN PConst(x) ELSE x % P              \* integer -> ring element
+FAdd(a, b) == IF P = 0 THEN a + b ELSE IF P = PRational THEN QAdd(a, b) ELSE IF P = PPoly THEN PAdd(a, b) ELSE (a + b) % P
+FSub(a, b) == IF P = 0 THEN a - b ELSE IF P = PRational THEN QSub(a, b) ELSE IF P = PPoly THEN PSub(a, b) ELSE (a - b) % P
+FNeg(a) == IF P = 0 THEN -a ELSE IF P = PRational THEN QNeg(a) ELSE IF P = PPoly THEN PNeg(a) ELSE (P - a) % P
+FMul(a, b) == IF P = 0 THEN a * b ELSE IF P = PRational THEN QMul(a, b) ELSE IF P = PPoly THEN PMul(a, b) ELSE (a * b) % P
 FSq(a) == FMul(a, a)
 RECURSIVE FPow(_, _)
 FPow(a, e) == IF e = 0 THEN FI(1)
@@ -37,8 +47,11 @@ AbsI(x) == IF x < 0 THEN -x ELSE x
 SgnI(x) == IF x < 0 THEN -1 ELSE IF x > 0 THEN 1 ELSE 0
 TruncDivI(a, b) == SgnI(a) * SgnI(b) * (AbsI(a) \div AbsI(b))
 \* multiplicative inverse (Fermat) / Rust integer division
-FInv(a) == IF P = 0 THEN TruncDivI(1, a) ELSE IF P < 0 THEN QInv(a) ELSE FPow(a, P - 2)
-FDiv(a, b) == IF P = 0 THEN TruncDivI(a, b) ELSE IF P < 0 THEN QDiv(a, b) ELSE FMul(a, FInv(b))
+\* polynomial ring: only exact division by an integer constant
+PolyDiv(a, b) == IF PIsConst(b) /\ PDivisible(a, PConstOf(b)) THEN PDivConst(a, PConstOf(b))
+                 ELSE Assert(FALSE, <<"division in the polynomial ring", a, b>>)
+FInv(a) == IF P = 0 THEN TruncDivI(1, a) ELSE IF P = PRational THEN QInv(a) ELSE IF P = PPoly THEN PolyDiv(PConst(1), a) ELSE FPow(a, P - 2)
+FDiv(a, b) == IF P = 0 THEN TruncDivI(a, b) ELSE IF P = PRational THEN QDiv(a, b) ELSE IF P = PPoly THEN PolyDiv(a, b) ELSE FMul(a, FInv(b))
 FRem(a, b) == a - b * TruncDivI(a, b)            \* only meaningful for P = 0
 F0 == FI(0)
 F1 == FI(1)
@@ -60,6 +73,17 @@ FMax(a, b) == IF FLe(b, a) THEN a ELSE b
 \* an exact rational <<n, d>> read in the current ring (binds pair-coded fields of a record
 \* to residue-coded ones)
 FOfQ(q) == FDiv(FI(q[1]), FI(q[2]))
+\* Records of the symbolic lane (harness element type Sym): a ring element is logged as {"p": [[coefficient,
+\* monomial], ...]} and the record's field `shp` says which fields hold ring elements and how deeply they are
+\* nested (0 scalar, 1 vector, 2 matrix).  DecodeTrace turns them into VekPoly values before the ordinary
+\* actions of a trace specification are evaluated, so the same actions validate sampled and symbolic records.
+PolyOfJson(x) == {<<x.p[i][2], x.p[i][1]>> : i \in DOMAIN x.p}
+RECURSIVE DecodeDepth(_, _)
+DecodeDepth(d, x) == IF d = 0 THEN PolyOfJson(x) ELSE [i \in DOMAIN x |-> DecodeDepth(d - 1, x[i])]
+DecodeRec(e) == IF "shp" \in DOMAIN e
+                THEN [f \in DOMAIN e |-> IF f \in DOMAIN e.shp THEN DecodeDepth(e.shp[f], e[f]) ELSE e[f]]
+                ELSE e
+DecodeTrace(recs) == IF P = PPoly THEN [i \in DOMAIN recs |-> DecodeRec(recs[i])] ELSE recs
 \* the elements of the ring when it is finite
 FSet == 0 .. (P - 1)
 =============================================================================
